@@ -534,3 +534,655 @@ Section Lift.
   Lemma lift_drop_index_tx : forall c f, Q _ (drop_index_tx c f).
   Proof. intros. unfold drop_index_tx. qsolve. Qed.
 End Lift.
+
+(* ------------------------------------------------------------------------------------------ *)
+(* Part 1d: the instances (no_commit, ok_keeps_fired, fault_reported, fault_sim)              *)
+(* ------------------------------------------------------------------------------------------ *)
+
+(* what the theorems below need of a transaction body *)
+Definition good_body {A} (m : M A) : Prop := commit_last m /\ ok_keeps_fired m /\ fault_sim m.
+
+Lemma good_of_lift : forall A (m : M A),
+  (forall P, closed_pred P -> P A m) -> good_body m.
+Proof.
+  intros A m H. split; [|split].
+  - apply no_commit_commit_last. exact (H _ nc_closed).
+  - exact (H _ okf_closed).
+  - exact (proj2 (H _ fsim_closed)).
+Qed.
+
+Lemma good_of_lift_commit : forall A (m : M A),
+  (forall P Q, closed_pred P -> closed_commit P Q -> Q A m) -> good_body m.
+Proof.
+  intros A m H. split; [|split].
+  - exact (H _ _ nc_closed nc_cl_closed).
+  - exact (H _ _ okf_closed okf_okf_closed).
+  - exact (proj2 (H _ _ fsim_closed fsim_fsim_closed)).
+Qed.
+
+(* the primitives named in the task, for no_commit and fault_reported *)
+Lemma no_commit_tx_get : forall k, no_commit (tx_get k).
+Proof. exact (lift_tx_get _ nc_closed). Qed.
+Lemma no_commit_tx_set : forall k x, no_commit (tx_set k x).
+Proof. exact (lift_tx_set _ nc_closed). Qed.
+Lemma no_commit_tx_delete : forall k, no_commit (tx_delete k).
+Proof. exact (lift_tx_delete _ nc_closed). Qed.
+Lemma no_commit_tx_cursor : forall fw, no_commit (tx_cursor fw).
+Proof. exact (lift_tx_cursor _ nc_closed). Qed.
+Lemma no_commit_cursor_item : forall e, no_commit (cursor_item e).
+Proof. exact (lift_cursor_item _ nc_closed). Qed.
+
+Lemma fault_reported_ret : forall A (a : A), fault_reported (ret a).
+Proof. intros; apply okf_fault_reported, okf_ret. Qed.
+Lemma fault_reported_fail : forall A e, fault_reported (@fail A e).
+Proof. intros; apply okf_fault_reported, okf_fail. Qed.
+Lemma fault_reported_tick : fault_reported tick.
+Proof. apply okf_fault_reported, okf_tick. Qed.
+Lemma fault_reported_get_view : fault_reported get_view.
+Proof. apply okf_fault_reported, okf_get_view. Qed.
+Lemma fault_reported_put_view : forall v, fault_reported (put_view v).
+Proof. intros; apply okf_fault_reported, okf_put_view. Qed.
+Lemma fault_reported_tx_get : forall k, fault_reported (tx_get k).
+Proof. intros; apply okf_fault_reported, (lift_tx_get _ okf_closed). Qed.
+Lemma fault_reported_tx_set : forall k x, fault_reported (tx_set k x).
+Proof. intros; apply okf_fault_reported, (lift_tx_set _ okf_closed). Qed.
+Lemma fault_reported_tx_delete : forall k, fault_reported (tx_delete k).
+Proof. intros; apply okf_fault_reported, (lift_tx_delete _ okf_closed). Qed.
+Lemma fault_reported_tx_cursor : forall fw, fault_reported (tx_cursor fw).
+Proof. intros; apply okf_fault_reported, (lift_tx_cursor _ okf_closed). Qed.
+Lemma fault_reported_cursor_item : forall e, fault_reported (cursor_item e).
+Proof. intros; apply okf_fault_reported, (lift_cursor_item _ okf_closed). Qed.
+Lemma fault_reported_tx_commit : fault_reported tx_commit.
+Proof. apply okf_fault_reported, okf_tx_commit. Qed.
+
+(* every body that a single-transaction operation runs *)
+Lemma good_create_collection_tx : forall c, good_body (create_collection_tx c).
+Proof. intros; apply good_of_lift_commit; intros; apply lift_create_collection_tx with (P := P); assumption. Qed.
+Lemma good_insert_tx : forall c docs, good_body (insert_tx c docs).
+Proof. intros; apply good_of_lift_commit; intros; apply lift_insert_tx with (P := P); assumption. Qed.
+Lemma good_delete_by_id_tx : forall c id, good_body (delete_by_id_tx c id).
+Proof. intros; apply good_of_lift_commit; intros; apply lift_delete_by_id_tx with (P := P); assumption. Qed.
+Lemma good_update_by_id_tx : forall c id u, good_body (update_by_id_tx c id u).
+Proof. intros; apply good_of_lift_commit; intros; apply lift_update_by_id_tx with (P := P); assumption. Qed.
+Lemma good_update_tx : forall q u, good_body (update_tx q u).
+Proof. intros; apply good_of_lift_commit; intros; apply lift_update_tx with (P := P); assumption. Qed.
+Lemma good_drop_collection_tx : forall c, good_body (drop_collection_tx c).
+Proof. intros; apply good_of_lift_commit; intros; apply lift_drop_collection_tx with (P := P); assumption. Qed.
+Lemma good_create_index_tx : forall c f, good_body (create_index_tx c f).
+Proof. intros; apply good_of_lift_commit; intros; apply lift_create_index_tx with (P := P); assumption. Qed.
+Lemma good_drop_index_tx : forall c f, good_body (drop_index_tx c f).
+Proof. intros; apply good_of_lift_commit; intros; apply lift_drop_index_tx with (P := P); assumption. Qed.
+
+Lemma good_find_all_tx : forall q, good_body (find_all_tx q).
+Proof. intros; apply good_of_lift; intros; apply lift_find_all_tx; assumption. Qed.
+Lemma good_find_by_id_tx : forall c id, good_body (find_by_id_tx c id).
+Proof. intros; apply good_of_lift; intros; apply lift_find_by_id_tx; assumption. Qed.
+Lemma good_has_collection : forall c, good_body (has_collection c).
+Proof. intros; apply good_of_lift; intros; apply lift_has_collection; assumption. Qed.
+Lemma good_has_index_tx : forall c f, good_body (has_index_tx c f).
+Proof. intros; apply good_of_lift; intros; apply lift_has_index_tx; assumption. Qed.
+Lemma good_list_indexes_tx : forall c, good_body (list_indexes_tx c).
+Proof. intros; apply good_of_lift; intros; apply lift_list_indexes_tx; assumption. Qed.
+Lemma good_collection_size_tx : forall c, good_body (collection_size_tx c).
+Proof. intros; apply good_of_lift; intros; apply lift_collection_size_tx; assumption. Qed.
+Lemma good_list_collections_tx : good_body list_collections_tx.
+Proof. apply good_of_lift; intros; apply lift_list_collections_tx; assumption. Qed.
+Lemma good_iterate_count : forall q n, good_body (iterate_docs q count_cons n).
+Proof.
+  intros; apply good_of_lift; intros; apply lift_iterate_docs; [assumption|].
+  intros; apply lift_count_cons; assumption.
+Qed.
+Lemma good_iterate_foreach : forall q n acc, good_body (iterate_docs q (foreach_cons n) acc).
+Proof.
+  intros; apply good_of_lift; intros; apply lift_iterate_docs; [assumption|].
+  intros; apply lift_foreach_cons; assumption.
+Qed.
+Lemma good_fail : forall A e, good_body (@fail A e).
+Proof. intros; apply good_of_lift; intros P HP; exact (cp_fail _ HP A e). Qed.
+
+Create HintDb bodies.
+#[local] Hint Resolve good_create_collection_tx good_insert_tx good_delete_by_id_tx good_update_by_id_tx
+  good_update_tx good_drop_collection_tx good_create_index_tx good_drop_index_tx
+  good_find_all_tx good_find_by_id_tx good_has_collection good_has_index_tx good_list_indexes_tx
+  good_collection_size_tx good_list_collections_tx good_iterate_count good_iterate_foreach
+  good_fail : bodies.
+
+(* ------------------------------------------------------------------------------------------ *)
+(* T1                                                                                         *)
+(* ------------------------------------------------------------------------------------------ *)
+
+Theorem write_bodies_commit_last :
+  (forall c, commit_last (create_collection_tx c)) /\
+  (forall c docs, commit_last (insert_tx c docs)) /\
+  (forall c id, commit_last (delete_by_id_tx c id)) /\
+  (forall c id u, commit_last (update_by_id_tx c id u)) /\
+  (forall q u, commit_last (update_tx q u)) /\
+  (forall c, commit_last (drop_collection_tx c)) /\
+  (forall c f, commit_last (create_index_tx c f)) /\
+  (forall c f, commit_last (drop_index_tx c f)).
+Proof.
+  repeat split; intros.
+  - exact (proj1 (good_create_collection_tx c)).
+  - exact (proj1 (good_insert_tx c docs)).
+  - exact (proj1 (good_delete_by_id_tx c id)).
+  - exact (proj1 (good_update_by_id_tx c id u)).
+  - exact (proj1 (good_update_tx q u)).
+  - exact (proj1 (good_drop_collection_tx c)).
+  - exact (proj1 (good_create_index_tx c f)).
+  - exact (proj1 (good_drop_index_tx c f)).
+Qed.
+
+Theorem read_bodies_no_commit :
+  (forall q, no_commit (find_all_tx q)) /\
+  (forall c id, no_commit (find_by_id_tx c id)) /\
+  (forall c, no_commit (has_collection c)) /\
+  (forall c f, no_commit (has_index_tx c f)) /\
+  (forall c, no_commit (list_indexes_tx c)) /\
+  (forall c, no_commit (collection_size_tx c)) /\
+  no_commit list_collections_tx /\
+  (forall A (q : nquery) (cons : obj -> A -> M (A * bool)) (a0 : A),
+     (forall d a, no_commit (cons d a)) -> no_commit (iterate_docs q cons a0)).
+Proof.
+  repeat split; intros.
+  - exact (lift_find_all_tx _ nc_closed q).
+  - exact (lift_find_by_id_tx _ nc_closed c id).
+  - exact (lift_has_collection _ nc_closed c).
+  - exact (lift_has_index_tx _ nc_closed c f).
+  - exact (lift_list_indexes_tx _ nc_closed c).
+  - exact (lift_collection_size_tx _ nc_closed c).
+  - exact (lift_list_collections_tx _ nc_closed).
+  - exact (lift_iterate_docs _ nc_closed cons H q a0).
+Qed.
+
+(* the same for the other two invariants *)
+Theorem write_bodies_fault_reported :
+  (forall c, fault_reported (create_collection_tx c)) /\
+  (forall c docs, fault_reported (insert_tx c docs)) /\
+  (forall c id, fault_reported (delete_by_id_tx c id)) /\
+  (forall c id u, fault_reported (update_by_id_tx c id u)) /\
+  (forall q u, fault_reported (update_tx q u)) /\
+  (forall c, fault_reported (drop_collection_tx c)) /\
+  (forall c f, fault_reported (create_index_tx c f)) /\
+  (forall c f, fault_reported (drop_index_tx c f)).
+Proof.
+  repeat split; intros; apply okf_fault_reported.
+  - exact (proj1 (proj2 (good_create_collection_tx c))).
+  - exact (proj1 (proj2 (good_insert_tx c docs))).
+  - exact (proj1 (proj2 (good_delete_by_id_tx c id))).
+  - exact (proj1 (proj2 (good_update_by_id_tx c id u))).
+  - exact (proj1 (proj2 (good_update_tx q u))).
+  - exact (proj1 (proj2 (good_drop_collection_tx c))).
+  - exact (proj1 (proj2 (good_create_index_tx c f))).
+  - exact (proj1 (proj2 (good_drop_index_tx c f))).
+Qed.
+
+Theorem write_bodies_fault_sim :
+  (forall c, ok_keeps_fired (create_collection_tx c) /\ fault_sim (create_collection_tx c)) /\
+  (forall c docs, ok_keeps_fired (insert_tx c docs) /\ fault_sim (insert_tx c docs)) /\
+  (forall c id, ok_keeps_fired (delete_by_id_tx c id) /\ fault_sim (delete_by_id_tx c id)) /\
+  (forall c id u, ok_keeps_fired (update_by_id_tx c id u) /\ fault_sim (update_by_id_tx c id u)) /\
+  (forall q u, ok_keeps_fired (update_tx q u) /\ fault_sim (update_tx q u)) /\
+  (forall c, ok_keeps_fired (drop_collection_tx c) /\ fault_sim (drop_collection_tx c)) /\
+  (forall c f, ok_keeps_fired (create_index_tx c f) /\ fault_sim (create_index_tx c f)) /\
+  (forall c f, ok_keeps_fired (drop_index_tx c f) /\ fault_sim (drop_index_tx c f)).
+Proof.
+  repeat apply conj; intros.
+  - exact (proj2 (good_create_collection_tx c)).
+  - exact (proj2 (good_insert_tx c docs)).
+  - exact (proj2 (good_delete_by_id_tx c id)).
+  - exact (proj2 (good_update_by_id_tx c id u)).
+  - exact (proj2 (good_update_tx q u)).
+  - exact (proj2 (good_drop_collection_tx c)).
+  - exact (proj2 (good_create_index_tx c f)).
+  - exact (proj2 (good_drop_index_tx c f)).
+Qed.
+
+(* ------------------------------------------------------------------------------------------ *)
+(* T2: an error result of a transaction means the handle is what it was                        *)
+(* ------------------------------------------------------------------------------------------ *)
+
+Definition tx_start (f : option nat) (db : dbst) : txst := mkTx (durable db) f 0 None false.
+
+Lemma with_tx_closed : forall A (body : M A) f db, closed db = true ->
+  with_tx body f db = mkOut (Err EOther) db 0 false.
+Proof. intros A body f db H. unfold with_tx. rewrite H. reflexivity. Qed.
+
+Lemma with_tx_open : forall A (body : M A) f db r s, closed db = false ->
+  (tick ;;; body) (tx_start f db) = (r, s) ->
+  with_tx body f db =
+    mkOut r (mkDb (match committed s with Some v => v | None => durable db end) false)
+          (calls s) (fired s).
+Proof.
+  intros A body f db r s H E. unfold with_tx. rewrite H. cbv zeta.
+  unfold tx_start in E. rewrite E. reflexivity.
+Qed.
+
+Lemma commit_last_begin : forall A (body : M A), commit_last body -> commit_last (tick ;;; body).
+Proof. intros A body H. apply commit_last_bind; [exact no_commit_tick | intros _; exact H]. Qed.
+
+Lemma okf_begin : forall A (body : M A), ok_keeps_fired body -> ok_keeps_fired (tick ;;; body).
+Proof. intros A body H. apply okf_bind; [exact okf_tick | intros _; exact H]. Qed.
+
+Lemma fsim_begin : forall A (body : M A), ok_keeps_fired body -> fault_sim body -> fault_sim (tick ;;; body).
+Proof. intros A body K H. apply fsim_bind; [exact okf_tick | exact fsim_tick | intros _; exact H]. Qed.
+
+Theorem with_tx_error_no_effect : forall A (body : M A) f db,
+  commit_last body -> is_err (o_res (with_tx body f db)) = true -> o_db (with_tx body f db) = db.
+Proof.
+  intros A body f db CL E.
+  destruct (closed db) eqn:Cl.
+  - (* a closed handle: the result is the handle itself *)
+    rewrite with_tx_closed by exact Cl. reflexivity.
+  - destruct ((tick ;;; body) (tx_start f db)) as [r s] eqn:Eb.
+    rewrite (with_tx_open _ _ _ _ _ _ Cl Eb) in *. cbn [o_res o_db] in *.
+    (* covers the failing Begin: tick returns Err, body is not run, nothing is committed *)
+    rewrite (commit_last_begin _ _ CL (tx_start f db) r s eq_refl Eb E).
+    destruct db as [d cl]. cbn in Cl |- *. rewrite Cl. reflexivity.
+Qed.
+
+Lemma with_tx_fault_reported : forall A (body : M A) f db,
+  ok_keeps_fired body -> o_fired (with_tx body f db) = true -> is_err (o_res (with_tx body f db)) = true.
+Proof.
+  intros A body f db K F.
+  destruct (closed db) eqn:Cl.
+  - rewrite with_tx_closed in * by exact Cl. reflexivity.
+  - destruct ((tick ;;; body) (tx_start f db)) as [r s] eqn:Eb.
+    rewrite (with_tx_open _ _ _ _ _ _ Cl Eb) in *. cbn [o_res o_fired] in *.
+    exact (okf_fault_reported _ _ (okf_begin _ _ K) _ _ _ Eb eq_refl F).
+Qed.
+
+Lemma with_tx_ok_not_fired : forall A (body : M A) f db a,
+  ok_keeps_fired body -> o_res (with_tx body f db) = Ok a -> o_fired (with_tx body f db) = false.
+Proof.
+  intros A body f db a K F.
+  destruct (o_fired (with_tx body f db)) eqn:E; [|reflexivity].
+  apply with_tx_fault_reported in E; [|exact K]. rewrite F in E. discriminate E.
+Qed.
+
+(* ------------------------------------------------------------------------------------------ *)
+(* T6a: crash atomicity of one transaction                                                     *)
+(* ------------------------------------------------------------------------------------------ *)
+
+Theorem with_tx_crash_atomic : forall A (body : M A) k db,
+  commit_last body -> ok_keeps_fired body -> fault_sim body ->
+  o_db (with_tx body (Some k) db) = db \/
+  (o_db (with_tx body (Some k) db) = o_db (with_tx body None db) /\
+   o_res (with_tx body (Some k) db) = o_res (with_tx body None db)).
+Proof.
+  intros A body k db CL K FS.
+  destruct (closed db) eqn:Cl.
+  - left. rewrite with_tx_closed by exact Cl. reflexivity.
+  - destruct ((tick ;;; body) (tx_start (Some k) db)) as [r s] eqn:Eb.
+    assert (S0 : sim (tx_start (Some k) db) (tx_start None db)).
+    { unfold sim, tx_start; cbn. repeat split; reflexivity. }
+    destruct (fsim_begin _ _ K FS _ _ _ _ S0 Eb) as [F | [s2 [E2 S2]]].
+    + (* the fault fired: the crash happened in this transaction; it is reported, so nothing was committed *)
+      left. apply with_tx_error_no_effect; [exact CL|].
+      apply with_tx_fault_reported; [exact K|].
+      rewrite (with_tx_open _ _ _ _ _ _ Cl Eb). exact F.
+    + (* the fault did not fire: the run is the fault-free run *)
+      right. rewrite (with_tx_open _ _ _ _ _ _ Cl Eb), (with_tx_open _ _ _ _ _ _ Cl E2).
+      cbn [o_db o_res]. destruct S2 as (_ & C2 & _). rewrite C2. split; reflexivity.
+Qed.
+
+(* ------------------------------------------------------------------------------------------ *)
+(* run_tx                                                                                     *)
+(* ------------------------------------------------------------------------------------------ *)
+
+Lemma run_tx_error_no_effect : forall A (body : M A) st,
+  commit_last body -> is_err (fst (run_tx body st)) = true -> r_db (snd (run_tx body st)) = r_db st.
+Proof.
+  intros A body st CL E. unfold run_tx in *. cbn [fst snd r_db] in *.
+  apply with_tx_error_no_effect; assumption.
+Qed.
+
+Lemma run_tx_fired_err : forall A (body : M A) st,
+  ok_keeps_fired body -> r_fired st = false -> r_fired (snd (run_tx body st)) = true ->
+  is_err (fst (run_tx body st)) = true.
+Proof.
+  intros A body st K F0 F1. unfold run_tx in *. cbn [fst snd r_fired] in *.
+  rewrite F0 in F1. cbn [orb] in F1. apply with_tx_fault_reported; assumption.
+Qed.
+
+Lemma run_tx_ok_fired : forall A (body : M A) st a,
+  ok_keeps_fired body -> fst (run_tx body st) = Ok a -> r_fired (snd (run_tx body st)) = r_fired st.
+Proof.
+  intros A body st a K E. unfold run_tx in *. cbn [fst snd r_fired] in *.
+  rewrite (with_tx_ok_not_fired _ _ _ _ _ K E). apply Bool.orb_false_r.
+Qed.
+
+Lemma run_tx_crash : forall A (body : M A) db k,
+  good_body body ->
+  r_db (snd (run_tx body (fresh_rstate db (Some k)))) = db \/
+  r_db (snd (run_tx body (fresh_rstate db (Some k)))) = r_db (snd (run_tx body (fresh_rstate db None))).
+Proof.
+  intros A body db k (CL & K & FS). unfold run_tx, fresh_rstate. cbn [fst snd r_db r_fault].
+  destruct (with_tx_crash_atomic _ body k db CL K FS) as [H | [H _]]; [left|right]; exact H.
+Qed.
+
+(* ------------------------------------------------------------------------------------------ *)
+(* the shape of every single-transaction operation                                             *)
+(* ------------------------------------------------------------------------------------------ *)
+
+Lemma T_err_is_err : forall e, T_is_err (T_err e) = true.
+Proof. intros []; reflexivity. Qed.
+
+Lemma T_unit_is_err : forall A (r : res A), T_is_err (T_unit r) = is_err r.
+Proof. intros A [a|e]; [reflexivity | apply T_err_is_err]. Qed.
+
+Lemma T_res_is_err : forall A (f : A -> T) (r : res A), T_is_err (T_res f r) = is_err r.
+Proof. intros A f [a|e]; [reflexivity | apply T_err_is_err]. Qed.
+
+(* either one transaction whose result is rendered, or an error before any store call *)
+Definition op_shape (o : op) : Prop :=
+  (exists (A : Type) (body : M A) (f : res A -> T),
+      good_body body /\ (forall r, T_is_err (f r) = is_err r) /\
+      forall st, exec_op o st = (f (fst (run_tx body st)), snd (run_tx body st)))
+  \/ (exists t, T_is_err t = true /\ forall st, exec_op o st = (t, st)).
+
+Ltac rew_eqns := repeat match goal with H : _ = _ |- _ => rewrite H end.
+
+Ltac shape_tx body f :=
+  left; exists _, body, f; split; [auto with bodies|];
+  split; [intro; first [apply T_unit_is_err | apply T_res_is_err]|];
+  let st := fresh "st" in
+  intro st; unfold exec_op, insert_op, find_all_op; rew_eqns;
+  destruct (run_tx body st); reflexivity.
+
+Ltac shape_err :=
+  right; exists (T_err EOther); split; [reflexivity|];
+  let st := fresh "st" in
+  intro st; unfold exec_op, insert_op, find_all_op; rew_eqns; reflexivity.
+
+Lemma exec_op_shape : forall o, single_tx o = true -> op_shape o.
+Proof.
+  intros o H. destruct o; try discriminate H; clear H.
+  - shape_tx (create_collection_tx c) (@T_unit unit).
+  - shape_tx (drop_collection_tx c) (@T_unit unit).
+  - shape_tx (has_collection c) (T_res Tbool).
+  - shape_tx list_collections_tx (T_res (fun l => TL (map TB (msort bleb l)))).
+  - shape_tx (insert_tx c (assign_ids docs fresh)) (@T_unit unit).
+  - destruct (needs_id d) eqn:E.
+    + shape_tx (insert_tx c (assign_ids [d] [fresh])) (@T_unit unit).
+    + shape_tx (update_by_id_tx c (object_id d) (UFunConst d)) (@T_unit unit).
+  - destruct (normalize_query (mk_query q)) as [nq|] eqn:E.
+    + shape_tx (find_all_tx nq) (T_res (T_of_docs (q_sort (mk_query q)) mode)).
+    + shape_err.
+  - destruct (normalize_query (mk_query q)) as [nq|] eqn:E; [|shape_err].
+    destruct (nq_crit nq) eqn:E2.
+    + shape_tx (iterate_docs nq count_cons 0) (T_res TZ).
+    + shape_tx (collection_size_tx (nq_coll nq))
+               (T_res (fun n => TZ (count_window n (nq_skip nq) (nq_limit nq)))).
+  - destruct (normalize_query (q_apply (mk_query q) (QLimit 1))) as [nq|] eqn:E.
+    + shape_tx (find_all_tx nq) (T_res (fun l : list obj => Tbool (match l with [] => false | _ => true end))).
+    + shape_err.
+  - destruct (normalize_query (q_apply (mk_query q) (QLimit 1))) as [nq|] eqn:E.
+    + shape_tx (find_all_tx nq) (T_res (fun l : list obj => T_of_opt_doc (hd_error l))).
+    + shape_err.
+  - destruct (normalize_query (mk_query q)) as [nq|] eqn:E; [|shape_err].
+    shape_tx (iterate_docs nq (foreach_cons stop_after) [])
+             (T_res (fun l => T_of_docs (nq_sort nq) mode (rev l))).
+  - shape_tx (find_by_id_tx c id) (T_res T_of_opt_doc).
+  - shape_tx (delete_by_id_tx c id) (@T_unit unit).
+  - shape_tx (update_by_id_tx c id u) (@T_unit unit).
+  - destruct (negb (beqb (object_id d) id)) eqn:E; [shape_err|].
+    shape_tx (update_by_id_tx c id (UFunConst d)) (@T_unit unit).
+  - destruct (normalize_query (mk_query q)) as [nq|] eqn:E; [|shape_err].
+    shape_tx (update_tx nq (USetAll kvs)) (@T_unit unit).
+  - destruct (normalize_query (mk_query q)) as [nq|] eqn:E.
+    + shape_tx (update_tx nq u) (@T_unit unit).
+    + shape_tx (fail EOther : M unit) (@T_unit unit).
+  - destruct (normalize_query (mk_query q)) as [nq|] eqn:E; [|shape_err].
+    shape_tx (update_tx nq UFunNil) (@T_unit unit).
+  - shape_tx (create_index_tx c f) (@T_unit unit).
+  - shape_tx (drop_index_tx c f) (@T_unit unit).
+  - shape_tx (has_index_tx c f) (T_res Tbool).
+  - shape_tx (list_indexes_tx c) (T_res (fun l => TL (map TB (msort bleb l)))).
+Qed.
+
+(* ------------------------------------------------------------------------------------------ *)
+(* T3, T4, T6b                                                                                *)
+(* ------------------------------------------------------------------------------------------ *)
+
+Theorem exec_op_error_no_effect : forall o st,
+  single_tx o = true -> T_is_err (fst (exec_op o st)) = true -> r_db (snd (exec_op o st)) = r_db st.
+Proof.
+  intros o st S E.
+  destruct (exec_op_shape o S) as [(A & body & f & (CL & _) & Hf & Hx) | (t & _ & Hx)];
+    rewrite Hx in *; cbn [fst snd] in *.
+  - rewrite Hf in E. apply run_tx_error_no_effect; assumption.
+  - reflexivity.
+Qed.
+
+Lemma exec_op_fault_reported_single : forall o st,
+  single_tx o = true ->
+  r_fired st = false -> r_fired (snd (exec_op o st)) = true -> T_is_err (fst (exec_op o st)) = true.
+Proof.
+  intros o st S F0 F1.
+  destruct (exec_op_shape o S) as [(A & body & f & (_ & K & _) & Hf & Hx) | (t & Ht & Hx)];
+    rewrite Hx in *; cbn [fst snd] in *.
+  - rewrite Hf. apply run_tx_fired_err; assumption.
+  - exact Ht.
+Qed.
+
+Theorem exec_op_crash_atomic : forall o db k,
+  single_tx o = true ->
+  let st := fresh_rstate db (Some k) in
+  r_db (snd (exec_op o st)) = db \/ r_db (snd (exec_op o st)) = snd (step db o).
+Proof.
+  intros o db k S st. subst st.
+  assert (Hstep : snd (step db o) = r_db (snd (exec_op o (fresh_rstate db None)))).
+  { unfold step. destruct (exec_op o (fresh_rstate db None)); reflexivity. }
+  rewrite Hstep.
+  destruct (exec_op_shape o S) as [(A & body & f & G & _ & Hx) | (t & _ & Hx)];
+    rewrite !Hx; cbn [fst snd].
+  - apply run_tx_crash; exact G.
+  - left; reflexivity.
+Qed.
+
+(* ---- T4 for every operation, the composite ones included ---- *)
+Lemma run_tx_eq_fired_err : forall A (body : M A) st r st',
+  ok_keeps_fired body -> run_tx body st = (r, st') ->
+  r_fired st = false -> r_fired st' = true -> is_err r = true.
+Proof.
+  intros A body st r st' K E F0 F1.
+  change r with (fst (r, st')). rewrite <- E. apply run_tx_fired_err; [exact K|exact F0|].
+  rewrite E. exact F1.
+Qed.
+
+Lemma run_tx_eq_ok_fired : forall A (body : M A) st a st',
+  ok_keeps_fired body -> run_tx body st = (Ok a, st') -> r_fired st' = r_fired st.
+Proof.
+  intros A body st a st' K E.
+  change st' with (snd (Ok a, st')). rewrite <- E. apply run_tx_ok_fired with (a := a); [exact K|].
+  rewrite E. reflexivity.
+Qed.
+
+Lemma find_all_op_fired_err : forall q st r st',
+  find_all_op q st = (r, st') -> r_fired st = false -> r_fired st' = true -> is_err r = true.
+Proof.
+  intros q st r st' E F0 F1. unfold find_all_op in E.
+  destruct (normalize_query q) as [nq|].
+  - exact (run_tx_eq_fired_err _ _ _ _ _ (proj1 (proj2 (good_find_all_tx nq))) E F0 F1).
+  - inv_pair E. reflexivity.
+Qed.
+
+Lemma find_all_op_ok_fired : forall q st a st',
+  find_all_op q st = (Ok a, st') -> r_fired st' = r_fired st.
+Proof.
+  intros q st a st' E. unfold find_all_op in E.
+  destruct (normalize_query q) as [nq|].
+  - exact (run_tx_eq_ok_fired _ _ _ _ _ (proj1 (proj2 (good_find_all_tx nq))) E).
+  - discriminate E.
+Qed.
+
+Lemma insert_op_fired_err : forall c docs st r st',
+  insert_op c docs st = (r, st') -> r_fired st = false -> r_fired st' = true -> is_err r = true.
+Proof.
+  intros c docs st r st' E. unfold insert_op in E.
+  exact (run_tx_eq_fired_err _ _ _ _ _ (proj1 (proj2 (good_insert_tx c docs))) E).
+Qed.
+
+Theorem exec_op_fault_reported : forall o st,
+  r_fired st = false -> r_fired (snd (exec_op o st)) = true -> T_is_err (fst (exec_op o st)) = true.
+Proof.
+  intros o st F0 F1.
+  destruct (single_tx o) eqn:S; [exact (exec_op_fault_reported_single o st S F0 F1)|].
+  destruct o; try discriminate S; clear S; unfold exec_op in *.
+  - (* OExport *)
+    destruct (run_tx (has_collection c) st) as [r st1] eqn:E1.
+    destruct r as [[|]|e]; cbn [fst snd] in *; try apply T_err_is_err.
+    assert (F : r_fired st1 = false).
+    { rewrite (run_tx_eq_ok_fired _ _ _ _ _ (proj1 (proj2 (good_has_collection c))) E1). exact F0. }
+    destruct (find_all_op (new_query c) st1) as [r2 st2] eqn:E2. cbn [fst snd] in *.
+    rewrite T_res_is_err. exact (find_all_op_fired_err _ _ _ _ E2 F F1).
+  - (* OImport *)
+    destruct file as [| |l]; cbn [fst snd] in *; try apply T_err_is_err.
+    + destruct (run_tx (create_collection_tx c) st) as [r st1] eqn:E1.
+      destruct r as [u|e]; cbn [fst snd] in *; apply T_err_is_err.
+    + destruct (run_tx (create_collection_tx c) st) as [r st1] eqn:E1.
+      destruct r as [u|e]; cbn [fst snd] in *; try apply T_err_is_err.
+      assert (F : r_fired st1 = false).
+      { rewrite (run_tx_eq_ok_fired _ _ _ _ _ (proj1 (proj2 (good_create_collection_tx c))) E1). exact F0. }
+      destruct (forallb _ l); cbn [fst snd] in *; try apply T_err_is_err.
+      destruct (insert_op c _ st1) as [r2 st2] eqn:E2. cbn [fst snd] in *.
+      rewrite T_unit_is_err. exact (insert_op_fired_err _ _ _ _ _ E2 F F1).
+  - (* OCreateByQuery *)
+    destruct (run_tx (create_collection_tx c) st) as [r st1] eqn:E1.
+    destruct r as [u|e]; cbn [fst snd] in *; try apply T_err_is_err.
+    assert (F : r_fired st1 = false).
+    { rewrite (run_tx_eq_ok_fired _ _ _ _ _ (proj1 (proj2 (good_create_collection_tx c))) E1). exact F0. }
+    destruct (find_all_op (mk_query q) st1) as [r2 st2] eqn:E2.
+    destruct r2 as [docs|e]; cbn [fst snd] in *; try apply T_err_is_err.
+    assert (F2 : r_fired st2 = false).
+    { rewrite (find_all_op_ok_fired _ _ _ _ E2). exact F. }
+    destruct docs as [|d docs]; cbn [fst snd] in *.
+    + rewrite F2 in F1. discriminate F1.
+    + destruct (insert_op c (d :: docs) st2) as [r3 st3] eqn:E3. cbn [fst snd] in *.
+      rewrite T_unit_is_err. exact (insert_op_fired_err _ _ _ _ _ E3 F2 F1).
+  - (* OClose *) cbn [fst snd r_fired] in *. rewrite F0 in F1. discriminate F1.
+  - (* OReopen *) cbn [fst snd r_fired] in *. rewrite F0 in F1. discriminate F1.
+Qed.
+
+(* ------------------------------------------------------------------------------------------ *)
+(* T5: composite operations are not atomic (finding K-composite)                              *)
+(* ------------------------------------------------------------------------------------------ *)
+
+Definition ex_cA : bytes := [97%N].
+Definition ex_cB : bytes := [98%N].
+Definition ex_fX : bytes := [120%N].
+
+(* "00000000-0000-0000-0000-00000000000n" *)
+Definition ex_id (n : N) : bytes :=
+  let z := 48%N in let d := 45%N in
+  [z;z;z;z;z;z;z;z;d;z;z;z;z;d;z;z;z;z;d;z;z;z;z;d;z;z;z;z;z;z;z;z;z;z;z;(48+n)%N].
+Definition ex_doc (n : N) (x : Z) : obj := [(id_field, VStr (ex_id n)); (ex_fX, VInt x)].
+
+Example ex_ids_canonical :
+  forallb (fun n => canonical_id (ex_id n) && validate (ex_doc n 0)) [1;2;3;4]%N = true.
+Proof. vm_compute. reflexivity. Qed.
+
+(* Import of an ill-formed file: the collection has been created and stays *)
+Theorem import_not_atomic_refuted : exists c file st,
+  T_is_err (fst (exec_op (OImport c file) st)) = true /\
+  r_db (snd (exec_op (OImport c file) st)) <> r_db st.
+Proof.
+  exists ex_cB, FIllFormed, (fresh_rstate empty_db None). split.
+  - vm_compute. reflexivity.
+  - vm_compute. discriminate.
+Qed.
+
+(* the same with a null element in a well-formed array *)
+Theorem import_null_elem_not_atomic_refuted :
+  let st := fresh_rstate empty_db None in
+  T_is_err (fst (exec_op (OImport ex_cB (FElems [None])) st)) = true /\
+  r_db (snd (exec_op (OImport ex_cB (FElems [None])) st)) <> r_db st.
+Proof. split; [vm_compute; reflexivity | vm_compute; discriminate]. Qed.
+
+Definition ex_db_src : dbst :=
+  snd (run_ops empty_db [OCreateCollection ex_cA; OInsert ex_cA [ex_doc 1 10] []]).
+
+(* CreateCollectionByQuery: a fault in the second (k = 5) or third (k = 12) transaction leaves the
+   new, empty collection behind *)
+Theorem create_by_query_not_atomic_refuted : exists c q st,
+  T_is_err (fst (exec_op (OCreateByQuery c q) st)) = true /\
+  r_db (snd (exec_op (OCreateByQuery c q) st)) <> r_db st.
+Proof.
+  exists ex_cB, (ex_cA, []), (fresh_rstate ex_db_src (Some 5%nat)). split.
+  - vm_compute. reflexivity.
+  - vm_compute. discriminate.
+Qed.
+
+Theorem create_by_query_third_tx_not_atomic_refuted :
+  let st := fresh_rstate ex_db_src (Some 12%nat) in
+  let o := OCreateByQuery ex_cB (ex_cA, []) in
+  T_is_err (fst (exec_op o st)) = true /\ r_fired (snd (exec_op o st)) = true /\
+  r_db (snd (exec_op o st)) <> r_db st /\
+  r_db (snd (exec_op o st)) <> snd (step ex_db_src o).
+Proof.
+  repeat split; try (vm_compute; reflexivity); vm_compute; discriminate.
+Qed.
+
+(* ------------------------------------------------------------------------------------------ *)
+(* T7: non-vacuity                                                                            *)
+(* ------------------------------------------------------------------------------------------ *)
+
+Definition ex_db0 : dbst :=
+  snd (run_ops empty_db [OCreateCollection ex_cA; OCreateIndex ex_cA ex_fX;
+                         OInsert ex_cA [ex_doc 1 10; ex_doc 2 20] []]).
+
+Definition ex_ins : op := OInsert ex_cA [ex_doc 3 30; ex_doc 4 40] [].
+
+Example ex_db0_built :
+  fst (run_ops empty_db [OCreateCollection ex_cA; OCreateIndex ex_cA ex_fX;
+                         OInsert ex_cA [ex_doc 1 10; ex_doc 2 20] []])
+  = [T_ok (TL []); T_ok (TL []); T_ok (TL [])] /\ length (durable ex_db0) = 5%nat.
+Proof. vm_compute. split; reflexivity. Qed.
+
+Example ex_insert_fault_3 :
+  let r := exec_op ex_ins (fresh_rstate ex_db0 (Some 3%nat)) in
+  fst r = T_err EStore /\ r_fired (snd r) = true /\ r_db (snd r) = ex_db0.
+Proof. vm_compute. repeat split; reflexivity. Qed.
+
+Example ex_insert_fault_6 :
+  let r := exec_op ex_ins (fresh_rstate ex_db0 (Some 6%nat)) in
+  fst r = T_err EStore /\ r_fired (snd r) = true /\ r_db (snd r) = ex_db0.
+Proof. vm_compute. repeat split; reflexivity. Qed.
+
+(* the very last store call of the operation is the commit: failing it still leaves no trace *)
+Example ex_insert_fault_commit :
+  let r := exec_op ex_ins (fresh_rstate ex_db0 (Some 9%nat)) in
+  fst r = T_err EStore /\ r_calls (snd r) = 10%nat /\ r_db (snd r) = ex_db0.
+Proof. vm_compute. repeat split; reflexivity. Qed.
+
+Example ex_insert_no_fault :
+  let r := exec_op ex_ins (fresh_rstate ex_db0 None) in
+  fst r = T_ok (TL []) /\ r_calls (snd r) = 10%nat /\ r_db (snd r) <> ex_db0 /\
+  length (durable (r_db (snd r))) = 9%nat.
+Proof. vm_compute. repeat split; try reflexivity. discriminate. Qed.
+
+(* a fault position beyond the operation's calls: the run is the fault-free run *)
+Example ex_insert_fault_late :
+  exec_op ex_ins (fresh_rstate ex_db0 (Some 10%nat)) <> exec_op ex_ins (fresh_rstate ex_db0 None) /\
+  r_db (snd (exec_op ex_ins (fresh_rstate ex_db0 (Some 10%nat)))) = snd (step ex_db0 ex_ins).
+Proof. vm_compute. split; [discriminate | reflexivity]. Qed.
+
+(* a batch whose second document repeats a stored id: an error after writes were made in the
+   transaction, and the database is what it was *)
+Example ex_insert_duplicate :
+  let r := exec_op (OInsert ex_cA [ex_doc 3 30; ex_doc 1 40] []) (fresh_rstate ex_db0 None) in
+  fst r = T_err EDupKey /\ r_fired (snd r) = false /\ r_db (snd r) = ex_db0.
+Proof. vm_compute. repeat split; reflexivity. Qed.
+
+Print Assumptions write_bodies_commit_last.
+Print Assumptions read_bodies_no_commit.
+Print Assumptions write_bodies_fault_reported.
+Print Assumptions write_bodies_fault_sim.
+Print Assumptions with_tx_error_no_effect.
+Print Assumptions exec_op_error_no_effect.
+Print Assumptions exec_op_fault_reported.
+Print Assumptions import_not_atomic_refuted.
+Print Assumptions create_by_query_not_atomic_refuted.
+Print Assumptions create_by_query_third_tx_not_atomic_refuted.
+Print Assumptions with_tx_crash_atomic.
+Print Assumptions exec_op_crash_atomic.
